@@ -304,6 +304,7 @@ def _path_validates(path, idname, follow=None, consts=None):
     for step in path:
         if step[0] == 'guard':
             tst, val = step[1], step[2]
+            while isinstance(tst, ast.UnaryOp) and isinstance(tst.op, ast.Not): tst, val = tst.operand, not val
             if isinstance(tst, ast.Compare) and len(tst.ops) == 1 and idname in names_in(tst):
                 op = tst.ops[0]
                 other = ast.unparse(tst.comparators[0] if idname in names_in(tst.left) else tst.left)
